@@ -438,6 +438,32 @@ inductive Zip {α β : Type} (R : α → β → Prop) : List α → List β → 
   | nil : Zip R [] []
   | cons {a b l1 l2} : R a b → Zip R l1 l2 → Zip R (a :: l1) (b :: l2)
 
+/-- **Whatever a hit hands out binds the request tree to its own lifetime**
+(`boundRequestToEntryLifetime` on every hit route and in `Store.GetWithContext`,
+`boundRequestTo` for cuts and syntheses): after the fold the tree's bound
+exists and is no later than the entry's TTL expiry, its lease, and whatever
+bound the tree already had. -/
+theorem hit_binds_request_tree (m : Option Int) (e : Entry) :
+    ∃ c, boundCut m (some e.hardUntil) = some c ∧ c ≤ e.stored + e.ttl ∧
+      (∀ l, e.cut = some l → c ≤ l) ∧ (∀ b, m = some b → c ≤ b) := by
+  have h1 := hardUntil_le_ttl e
+  cases m with
+  | none =>
+    refine ⟨e.hardUntil, rfl, h1, fun l hl => hardUntil_le_cut e l hl, ?_⟩
+    intro b hb; cases hb
+  | some b =>
+    unfold boundCut
+    simp only
+    split
+    · refine ⟨e.hardUntil, rfl, h1, fun l hl => hardUntil_le_cut e l hl, ?_⟩
+      intro b' hb'; simp only [Option.some.injEq] at hb'; omega
+    · refine ⟨b, rfl, by omega, ?_, ?_⟩
+      · intro l hl; have := hardUntil_le_cut e l hl; omega
+      · intro b' hb'; simp only [Option.some.injEq] at hb'; omega
+
+example : boundCut (some (100 * S)) (some (({ stored := 0, ttl := 300 * S, cut := some (20 * S) } : Entry).hardUntil)) = some (20 * S) := by
+  decide
+
 /-- **Composed answers inherit the shortest part (read side, wire chase).**
 Every record of a composed wire reply carries a TTL within the remaining
 lifetime of its own segment, so the smallest TTL of the reply is within the
@@ -688,6 +714,137 @@ theorem cut_and_proof_unfloored (maxTTL hardMax now : Int) (soaTtl soaMin : Nat)
   · intro exp h b hb
     exact (proof_unfloored hardMax now maxTTL cut recs exp h).2.2.1 b hb
 
+/-! ## DNS64 -/
+
+theorem negativeAAAATTL_le (hdr mn : Nat) :
+    ∃ n, negativeAAAATTL (some (hdr, mn)) = some n ∧ n ≤ hdr ∧ n ≤ mn := by
+  unfold negativeAAAATTL
+  simp only [Option.map_some]
+  split
+  · exact ⟨mn, rfl, by omega, Nat.le_refl _⟩
+  · exact ⟨hdr, rfl, Nat.le_refl _, by omega⟩
+
+theorem dns64TTL_le_init (c : Nat) (neg : Option Nat) (l : List Nat) : dns64TTL c neg l ≤ neg.getD c := by
+  unfold dns64TTL
+  generalize neg.getD c = t
+  induction l generalizing t with
+  | nil => exact Nat.le_refl _
+  | cons a r ih =>
+    simp only [List.foldl_cons]
+    refine Nat.le_trans (ih _) ?_
+    split <;> omega
+
+theorem dns64TTL_le_mem (c : Nat) (neg : Option Nat) (l : List Nat) (a : Nat) (h : a ∈ l) : dns64TTL c neg l ≤ a := by
+  unfold dns64TTL
+  generalize neg.getD c = t
+  induction l generalizing t with
+  | nil => cases h
+  | cons x r ih =>
+    simp only [List.foldl_cons]
+    rcases List.mem_cons.mp h with rfl | h
+    · have := dns64TTL_le_init 0 (some (if a < t then a else t)) r
+      unfold dns64TTL at this
+      simp only [Option.getD_some] at this
+      refine Nat.le_trans this ?_
+      split <;> omega
+    · exact ih h _
+
+/-- **A synthetic AAAA inherits the shortest of its pieces (RFC 6147 §5.1.7).**
+Its TTL is at most every A record's TTL, and — when the AAAA answer it
+replaces carries an SOA — at most that SOA's header TTL *and* its MINIMUM;
+without an SOA at most the 600 s ceiling.  The chain of the A answer is capped
+at the same value. -/
+theorem dns64_ttl_le_every_piece (c : Nat) (soa : Option (Nat × Nat)) (aTTLs : List Nat) :
+    (∀ a ∈ aTTLs, dns64TTL c (negativeAAAATTL soa) aTTLs ≤ a) ∧
+    (∀ hdr mn, soa = some (hdr, mn) →
+        dns64TTL c (negativeAAAATTL soa) aTTLs ≤ hdr ∧ dns64TTL c (negativeAAAATTL soa) aTTLs ≤ mn) ∧
+    (soa = none → dns64TTL c (negativeAAAATTL soa) aTTLs ≤ c) ∧
+    (∀ x, dns64ChainTTL (dns64TTL c (negativeAAAATTL soa) aTTLs) x ≤ dns64TTL c (negativeAAAATTL soa) aTTLs ∧
+          dns64ChainTTL (dns64TTL c (negativeAAAATTL soa) aTTLs) x ≤ x) := by
+  refine ⟨fun a ha => dns64TTL_le_mem _ _ _ a ha, ?_, ?_, ?_⟩
+  · intro hdr mn hs
+    subst hs
+    obtain ⟨n, hn, h1, h2⟩ := negativeAAAATTL_le hdr mn
+    have := dns64TTL_le_init c (negativeAAAATTL (some (hdr, mn))) aTTLs
+    rw [hn] at this ⊢
+    simp only [Option.getD_some] at this
+    omega
+  · intro hs; subst hs
+    have := dns64TTL_le_init c (negativeAAAATTL none) aTTLs
+    simpa [negativeAAAATTL] using this
+  · intro x; unfold dns64ChainTTL; split <;> omega
+
+/-- … in particular, composed from entries of differing ages: when the AAAA
+NODATA is served from the cache (its SOA's header TTL is the TTL shown for
+entry `e6` on some route) and so is the A RRset (entry `e4`), the synthetic
+AAAA's TTL is within the remaining lifetime of BOTH entries. -/
+theorem dns64_within_cached_pieces (r6 r4 : Route) (e6 e4 : Entry) (now : Int) (hdr a mn c : Nat)
+    (h6 : shown r6 e6 now = some hdr) (h4 : shown r4 e4 now = some a) :
+    ((dns64TTL c (negativeAAAATTL (some (hdr, mn))) [a] : Nat) : Int) * S ≤ e6.remaining now ∧
+    ((dns64TTL c (negativeAAAATTL (some (hdr, mn))) [a] : Nat) : Int) * S ≤ e4.remaining now := by
+  obtain ⟨ha, hs, _, _⟩ := dns64_ttl_le_every_piece c (some (hdr, mn)) [a]
+  have h1 := (hs hdr mn rfl).1
+  have h2 := ha a (by simp)
+  have g6 := (shown_ttl_le_remaining r6 e6 now hdr h6).1
+  have g4 := (shown_ttl_le_remaining r4 e4 now a h4).1
+  have hS := S_pos
+  generalize dns64TTL c (negativeAAAATTL (some (hdr, mn))) [a] = t at h1 h2 ⊢
+  have m1 : (t : Int) * S ≤ (hdr : Int) * S := Int.mul_le_mul_of_nonneg_right (by omega) (Int.le_of_lt hS)
+  have m2 : (t : Int) * S ≤ (a : Int) * S := Int.mul_le_mul_of_nonneg_right (by omega) (Int.le_of_lt hS)
+  constructor <;> omega
+
+/-- the 600 s ceiling of the compiled dns64 package (one-directional). -/
+theorem tree_dns64_ceiling : SdnsVerif.Gen.C04.dns64_no_soa_ceiling_s ≤ 600 := by decide
+
+/-- **A re-recorded synthesis inherits from what it was synthesised from.**
+`ResponseWriter.WriteMsg` stores the proof of a synthesised denial again with
+the TTL `t` the synthesis showed; whatever else the records say, both new
+entries expire no later than the synthesis did — hence no later than the SOA
+entry and every proof entry it was built from. -/
+theorem rerecorded_proof_within_source (soa : Int) (proofs : List Int) (now : Int) (t : Nat) (e : Int)
+    (hardMax maxTTL : Int) (cut : Option Int) (common set : List ProofRR) (a b : Int)
+    (hs : synthServe soa proofs now = some (t, e))
+    (hr : proofAdmit hardMax now maxTTL cut common set = some (a, b))
+    (hc : ∃ p ∈ common, p.rr.ttl = t) :
+    b ≤ a ∧ a ≤ e ∧ a ≤ soa ∧ ∀ p ∈ proofs, a ≤ p := by
+  have hba := proof_piece_expires_with_its_own_soa hardMax now maxTTL cut common set a b hr
+  have hsyn := synthesis_within_every_piece soa proofs now t e hs
+  -- the synthesis reports e with t = whole seconds of e - now
+  have hte : (t : Int) * S ≤ e - now := by
+    unfold synthServe at hs
+    split at hs
+    · cases hs
+    · split at hs
+      · cases hs
+      · split at hs
+        · cases hs
+        · simp only at hs
+          split at hs
+          · cases hs
+          · simp only [Option.some.injEq, Prod.mk.injEq] at hs
+            obtain ⟨h1, h2⟩ := hs
+            subst h1; subst h2
+            exact secs_mul_le _ (by omega)
+  unfold proofAdmit at hr
+  cases ha : denialProofExpiry hardMax now maxTTL cut common with
+  | none => rw [ha] at hr; cases hr
+  | some a' =>
+    cases hb : denialProofExpiry hardMax now maxTTL cut (common ++ set) with
+    | none => rw [ha, hb] at hr; cases hr
+    | some b' =>
+      rw [ha, hb] at hr
+      simp only [Option.some.injEq, Prod.mk.injEq] at hr
+      obtain ⟨rfl, rfl⟩ := hr
+      obtain ⟨p, hp, hpt⟩ := hc
+      have hbound := (proof_unfloored hardMax now maxTTL cut common a' ha).2.2.1 (getTTL p.rr) (by
+        unfold allProofBounds
+        refine List.mem_flatMap.mpr ⟨p, hp, ?_⟩
+        unfold proofBounds
+        cases p.rr.kind <;> simp)
+      have : getTTL p.rr = (t : Int) * S := by unfold getTTL; rw [hpt]
+      refine ⟨hba, by omega, by have := hsyn.2.2.1; omega, ?_⟩
+      intro q hq; have := hsyn.2.2.2.1 q hq; omega
+
 /-! ## the late write -/
 
 /-- **A background refresh that completes after newer data was stored for the
@@ -790,6 +947,11 @@ example : synthServe (80 * S) [300 * S] (60 * S + 1) = some (19, 80 * S) := by d
 example : synthServe (80 * S) [300 * S] (80 * S) = none := by decide
 example : proofAdmit (10800 * S) 0 (7200 * S) none [{ rr := { ttl := 30, kind := .soa 30 } }] [{ rr := { ttl := 300 } }]
     = some (30 * S, 30 * S) := by decide
+
+-- DNS64: A cached with 250 s, the AAAA NODATA served late in its life (SOA header TTL 3, minimum 300)
+example : dns64TTL noSOACeiling (negativeAAAATTL (some (3, 300))) [249, 249] = 3 := by decide
+example : dns64TTL noSOACeiling (negativeAAAATTL none) [3600] = 600 := by decide
+example : dns64ChainTTL 3 40 = 3 := by decide
 
 -- the interleaving: capture, newer Set, late CAS
 example : (casStep (casRun {} [.set, .capture 0, .set]) (.cas 0)).2 = false := by decide
